@@ -81,6 +81,41 @@ let rec of_pred = function
   | PAtom n -> L [A "a"; of_nat n]
   | PAnd (l, r) -> L [A "and"; of_pred l; of_pred r]
   | POr (l, r) -> L [A "or"; of_pred l; of_pred r]
+let get_bop = function A "add" -> BAdd | A "sub" -> BSub | A "mul" -> BMul | A "lt" -> BLt | A "le" -> BLe | A "gt" -> BGt
+  | A "ge" -> BGe | A "eq" -> BEq | A "ne" -> BNe | A "and" -> BAnd | A "or" -> BOr | _ -> failwith "bop"
+let get_uop = function A "neg" -> UNeg | A "abs" -> UAbs | A "isna" -> UIsNa | A "notnull" -> UNotNull | A "invert" -> UInvert | _ -> failwith "uop"
+let rec get_expr = function
+  | L [A "src"; id; cs] -> Src (get_nat id, get_list get_nat cs)
+  | L [A "srcs"; id; c] -> SrcS (get_nat id, get_nat c)
+  | L [A "proj"; e; cs] -> Proj (get_expr e, get_list get_nat cs)
+  | L [A "projs"; e; c] -> ProjS (get_expr e, get_nat c)
+  | L [A "filter"; e; p] -> Filter (get_expr e, get_expr p)
+  | L [A "binl"; o; e; z] -> BinL (get_bop o, get_expr e, get_z z)
+  | L [A "binr"; o; z; e] -> BinR (get_bop o, get_z z, get_expr e)
+  | L [A "bin"; o; a; b] -> Bin (get_bop o, get_expr a, get_expr b)
+  | L [A "un"; u; e] -> Un (get_uop u, get_expr e)
+  | L [A "fillna"; e; z] -> Fillna (get_expr e, get_z z)
+  | L [A "assign"; e; k; v] -> Assign (get_expr e, get_nat k, get_expr v)
+  | L [A "rename"; e; m] -> Rename (get_expr e, get_list (get_pair get_nat get_nat) m)
+  | L [A "rsum"; e] -> RSum (get_expr e)
+  | L [A "rcount"; e] -> RCount (get_expr e)
+  | L [A "rlen"; e] -> RLen (get_expr e)
+  | _ -> failwith "expr"
+let of_cell = of_opt of_z
+let of_obj = function
+  | OFrame (cs, rows) -> L [A "frame"; of_list of_nat cs; of_list (of_pair of_nat (of_list of_cell)) rows]
+  | OSeries rows -> L [A "series"; of_list (of_pair of_nat of_cell) rows]
+  | OScalar c -> L [A "scalar"; of_cell c]
+  | ORow (cs, vals) -> L [A "row"; of_list of_nat cs; of_list of_cell vals]
+let get_cell = get_opt get_z
+let get_barg = function L [A "lit"; z] -> ALit (get_nat z) | L [A "dep"; n; np; nd] -> ADep (get_nat n, get_nat np, get_nat nd) | _ -> failwith "barg"
+let rec get_member = function
+  | L [A "plain"; n; np; nd; args] -> MPlain (get_nat n, get_nat np, get_nat nd, get_list get_barg args)
+  | L [A "fused"; n; np; group; deps] -> MFused (get_nat n, get_nat np, get_list get_member group, get_list (get_pair get_nat get_nat) deps)
+  | _ -> failwith "member"
+let of_gkey = function KName n -> L [A "name"; of_nat n] | KPart (n, i) -> L [A "part"; of_nat n; of_nat i] | KPlace j -> L [A "place"; of_nat j]
+let of_garg = function GKey k -> of_gkey k | GLit z -> L [A "lit"; of_nat z]
+let of_gtask = function TAlias k -> L [A "alias"; of_gkey k] | TCall (fn, args) -> L [A "call"; of_nat fn; of_list of_garg args]
 (*DISPATCH-BEGIN*)
 let dispatch (fn : string) (args : sx list) : sx =
   match fn, args with
@@ -124,6 +159,20 @@ let dispatch (fn : string) (args : sx list) : sx =
   | "wf_check", [g; outs] ->
       let get_node = function L [k; deps] -> { g_key = get_nat k; g_deps = get_list get_nat deps } | _ -> failwith "node" in
       of_bool (wf_check (get_list get_node g) (get_list get_nat outs))
+  | "rule_name", [p; r] -> of_nat (rule_name (get_expr p) (get_expr r))
+  | "den", [tables; e] ->
+      (* tables: ((id (cols) ((rid (cells)) ...)) ...) *)
+      let tabs = get_list (function L [id; cs; rows] ->
+                    (get_int id, (get_list get_nat cs, get_list (get_pair get_nat (get_list get_cell)) rows)) | _ -> failwith "table") tables in
+      let rho = fun n -> List.assoc_opt (int_of_nat n) tabs in
+      of_opt of_obj (den rho (get_expr e))
+  | "fused_task", [self; group; deps; index] ->
+      let ((g, root), dks) = fused_task (get_nat self) (get_list get_member group) (get_list (get_pair get_nat get_nat) deps) (get_nat index) in
+      let entries = List.sort compare (List.map (fun (k, t) -> show (L [of_gkey k; of_gtask t])) g) in
+      L [L (List.map (fun x -> A x) entries); of_gkey root; of_list of_gkey dks]
+  | "valid_group", [self; group; deps] ->
+      L [of_bool (valid_group (get_list get_member group) (get_list (get_pair get_nat get_nat) deps));
+         of_bool (self_fresh (get_nat self) (get_list get_member group))]
   | _ -> failwith ("unknown request " ^ fn)
 (*DISPATCH-END*)
 
